@@ -180,6 +180,20 @@ func c04Check(c *Ctx, doc *XElem, path string, choices []int) (nontrivial bool) 
 		c.Violate(path, "token-stream", shape, cas, choices, fmt.Sprintf("xml=%q\n output=%q\n expected=%v\n   actual=%v err=%v", xmlText, out, exp, got, terr))
 		return true
 	}
+	if path == "XmlIndent" || path == "BeautifyXml" {
+		// "up to inter-element whitespace": every tag, comment, instruction and directive is byte for byte
+		// the one the compact encoder writes
+		var compact []byte
+		protect(func() {
+			if ms, e := mxj.NewMapXmlSeq([]byte(xmlText)); e == nil {
+				compact, _ = ms.Xml()
+			}
+		})
+		if a, b := markupSpans(compact), markupSpans(out); !eqStrings(a, b) {
+			c.Violate(path, "markup-differs-from-compact", shape, cas, choices, fmt.Sprintf("xml=%q\n compact=%q\n  output=%q", xmlText, compact, out))
+			return true
+		}
+	}
 	c.Outcome(string(out))
 	return true
 }
@@ -204,6 +218,7 @@ func c04Decos(base *XElem, thorough bool) []Deco {
 			ds = append(ds, Deco{Kind: 't', El: i, Pos: 0, Value: tv})
 		}
 		ds = append(ds, Deco{Kind: 't', El: i, Pos: 0, Value: "x<y", CData: true})
+		ds = append(ds, Deco{Kind: 't', El: i, Pos: 0, Value: "x<y", Split: 1}, Deco{Kind: 't', El: i, Pos: 0, Value: "45", Split: -1})
 		for pos := 0; pos <= nk; pos++ {
 			ds = append(ds, Deco{Kind: 'c', El: i, Pos: pos, Value: " note "})
 			if pos == 0 {
